@@ -212,3 +212,30 @@ def c18(ctx):
                     trace_module="Trace_C18", sigfn=V.default_sig,
                     assumptions=["TLC/SANY and the JVM", "a failing WritePacket returns (0, err); short packet writes (n<188, nil) are not part of the property",
                                  "readers never return (0, nil)"])
+
+
+# ---------------------------------------------------------------- C10
+
+def c10_sig(e, reason):
+    d = e.get("d") or {}
+    t = d.get("type")
+    if reason == "panic":
+        return "%s/%s" % (e.get("op", "?"), V.panic_site(e))
+    return "%s/%s" % (e.get("op", "?"), reason)
+
+
+@prop("C10", "Trace_C10", c10_sig)
+def c10(ctx):
+    thorough = ctx.tier == "thorough"
+    V.mc(ctx, "MC_C10", cfg="MC_C10_thorough.cfg" if thorough else "MC_C10.cfg", workers=12, timeout=3000, xmx="12g")
+    summ = V.gen_traces(ctx, shards=12)
+    V.validate(ctx, "Trace_C10", summ, c10_sig, par=12)
+    return V.finish(ctx, "model_checking",
+                    rule="MC: all ProcessDescriptor/Close histories to depth 4 (5) over a descriptor alphabet (7 (14) types x event id x PTS incl. none x segexp x signal id), ring length 2; "
+                         "C10's clauses as invariants and per-transition action properties. B3: every process-only history of length <= 2 (3) over a 50-descriptor alphabet and random histories "
+                         "(4..25 calls, 25 types, breakaway/resumption/explicit close/re-processing/ring eviction biased) on a real scte35.State; after every call the error class, "
+                         "the ids returned closed and the ids listed by Open() are validated against Scte35State carried along the history. class = (op, type, result, #closed, #open)",
+                    trace_module="Trace_C10", sigfn=c10_sig,
+                    assumptions=["TLC/SANY and the JVM", "SegRules (C19) for CanClose/Equal", "descriptor fields are logged from the real getters",
+                                 "errors other than no-PTS / duplicate / signal-id-not-found are collapsed with success (the property does not name them)",
+                                 "'was open immediately before' is read as 'was on the tracker's stack' (a pending breakaway is on the stack although Open() hides it)"])
